@@ -894,10 +894,8 @@ pub(super) fn load_sheet<R: Read + std::io::Seek>(
     // holds the row heights
     let mut rows = Vec::new();
     let mut sheet_data = SheetData::new();
-    let sheet_data_nodes = ws
-        .children()
-        .filter(|n| n.has_tag_name("sheetData"))
-        .collect::<Vec<Node>>()[0];
+    // a worksheet without <sheetData> has no cells
+    let sheet_data_nodes = ws.children().find(|n| n.has_tag_name("sheetData"));
 
     let default_row_height = 14.5;
 
@@ -907,7 +905,7 @@ pub(super) fn load_sheet<R: Read + std::io::Seek>(
     // Cells part of an array formula
     let mut array_cell = HashMap::new();
 
-    for row in sheet_data_nodes.children() {
+    for row in sheet_data_nodes.iter().flat_map(|n| n.children()) {
         // This is the row number 1-indexed
         let mut row_index = match get_attribute(&row, "r") {
             Ok(s) => Some(s.parse::<i32>()?),
@@ -1321,7 +1319,9 @@ pub(super) fn load_sheets<R: Read + std::io::Seek>(
     // load comments, tables and hyperlink relationships
     let mut sheet_rels = HashMap::new();
     for sheet in &workbook.worksheets {
-        let rel = &rels[&sheet.id];
+        let rel = rels.get(&sheet.id).ok_or_else(|| {
+            XlsxError::Xml(format!("Missing relationship '{}'", sheet.id))
+        })?;
         if rel.rel_type.ends_with("worksheet") {
             let path = &rel.target;
             let path = if let Some(p) = path.strip_prefix('/') {
@@ -1348,7 +1348,9 @@ pub(super) fn load_sheets<R: Read + std::io::Seek>(
         let sheet_name = &sheet.name;
         let rel_id = &sheet.id;
         let state = &sheet.state;
-        let rel = &rels[rel_id];
+        let rel = rels
+            .get(rel_id)
+            .ok_or_else(|| XlsxError::Xml(format!("Missing relationship '{rel_id}'")))?;
         if rel.rel_type.ends_with("worksheet") {
             let path = &rel.target;
             let path = if let Some(p) = path.strip_prefix('/') {
